@@ -890,6 +890,51 @@ struct Explorer {
     }
   }
 
+  /// C05, last sentence: a declared source file that is missing and has no rule is reported before any command is run.
+  /// "Declared" = written in the manifest as explicit, implicit, order-only or validation input of a statement in the
+  /// closure of the requested targets (dependencies a command *reported* are exempt: C10; a dyndep file is reported
+  /// by another message).
+  void CheckMissingSource(const Op& op, const RunResult& r, const vfs::Disk& before, vector<Violation>* out) {
+    if (r.hang || r.crashed || r.horizon) return;
+    const Variant* v = VariantOf(sc, before);
+    if (!v) return;
+    vector<string> roots = TargetsOf(op, *v);
+    set<int> stmts;
+    set<string> nodes;
+    Closure(*v, roots, &stmts, &nodes);
+    string missing, kinds;
+    bool only_oo_or_val = true;
+    for (int si : stmts) {
+      const Stmt& st = v->stmts[si];
+      int k = 0;
+      for (auto* l : {&st.ex, &st.im, &st.oo, &st.val}) {
+        for (auto& x : *l) {
+          if (v->producer.count(x) || before.Get(x) || x == st.dyndep) continue;
+          missing += x + " ";
+          kinds += string(k == 0 ? "explicit" : k == 1 ? "implicit" : k == 2 ? "order-only" : "validation") + " ";
+          if (k < 2) only_oo_or_val = false;
+        }
+        ++k;
+      }
+    }
+    for (auto& t : roots) if (!v->producer.count(t) && !before.Get(t)) { missing += t + " "; kinds += "target "; only_oo_or_val = false; }
+    if (missing.empty()) return;
+    bool reported = r.exit_code != 0 && (r.out.find("missing and no known rule to make it") != string::npos || r.out.find("unknown target") != string::npos);
+    // commands of an earlier manifest cycle: the build that regenerates build.ninja is a build of its own
+    int last_cycle = 0;
+    for (auto& c : r.cmds) last_cycle = max(last_cycle, c.cycle);
+    bool any_cmd = !r.cmds.empty(), only_regen = true;
+    for (auto& c : r.cmds) if (c.spec.id() != "build.ninja" && !(v->producer.count("build.ninja") && c.cycle < last_cycle)) only_regen = false;
+    if (reported && !any_cmd) return;
+    Violation x; x.prop = "C05"; x.clause = "missing-source-not-reported-first";
+    x.detail = "declared source(s) {" + missing + "} (" + kinds + ") are missing and have no rule, but ninja " +
+               (reported ? "reported it only after starting " : "did not report it (exit " + to_string(r.exit_code) + ") and started ") + js::Dump(StartedList(r));
+    x.facts.set("missing_only_as_order_only_or_validation_input", only_oo_or_val);
+    x.facts.set("reported", reported);
+    x.facts.set("only_manifest_regeneration_commands_ran_first", any_cmd && only_regen);
+    out->push_back(x);
+  }
+
   /// C05 (retry clause): with the fault still present and an unlimited failure budget, every
   /// command that failed is started again unless something upstream of it fails first.
   void CheckRetry(const Op& op, const RunResult& r, const vfs::Disk& before, const vfs::Disk& after,
@@ -2767,6 +2812,7 @@ struct Explorer {
         if (Want("C04") || Want("C05")) CheckOrder(r, &vs);
         if (Want("C16")) CheckRspLifecycle(r, d, &vs);
         if (Want("C05")) CheckFailures(op, r, w.disk, d, baseline.get(), &vs);
+        if (Want("C05") && !op.tool && !op.dry_run) CheckMissingSource(op, r, w.disk, &vs);
         if (Want("C05") && !op.cfg.faults.empty()) CheckRetry(op, r, w.disk, d, &vs);
         if (Want("C06")) CheckLimits(op, r, &vs, &d);
         if (Want("C17")) CheckCycle(op, r, w.disk, d, &vs);
@@ -2783,7 +2829,8 @@ struct Explorer {
           if (w.abnormal) CheckUnexpectedError(op, r, &vs);
         }
         if (Want("C03") && w.base && w.nchanges <= 2 && op.cfg.faults.empty() &&
-            !op.cfg.allow_interrupt && !edited_during && !sc.tags.count("manifest-regen"))
+            !op.cfg.allow_interrupt && !edited_during && !sc.tags.count("manifest-regen") &&
+            !(r.exit_code != 0 && r.out.find("missing and no known rule to make it") != string::npos))   // refused: a missing source
           CheckMinimal(op, r, *w.base, w.disk, w.base_restat_pruned, &vs);
       }
       if (w.abnormal && Want("C07")) {
